@@ -4,11 +4,15 @@
 mod convsched;
 #[path = "../../vreal/src/interp.rs"]
 mod interp;
+#[path = "../../vhook/src/memrun.rs"]
+mod memrun;
 mod pool;
 mod queue;
 mod sched;
+mod server;
 
 use vcore::cli::{drive, Cli};
+use proptest::strategy::Strategy;
 use vcore::runner::{make_part, Part};
 
 fn main() {
@@ -22,8 +26,9 @@ fn main() {
     let (rule, assumptions): (&str, Vec<&str>) = match cli.property.as_str() {
         "C08" => {
             parts.push(make_part("sched-pool", "SCHED", cli.cases(6_000, 300_000), || pool::pool_strategy(12), |_| (), |_, c| pool::run_pool_case(c)));
+            parts.push(make_part("sched-server", "SCHED", cli.cases(2_500, 100_000), || server::server_strategy(9, false), |_| (), |_, c| server::run_server_case("C08", c)));
             (
-                "part sched-pool: TaskPool alone under the controlled scheduler: N=1..12 long-lived tasks (each announces itself, then blocks until all N have started), optional warm-up burst and idle phase (virtual time) before, generated arrival pattern and schedule tape; oracle: all N run at the same time (otherwise: exact deadlock report), each task body exactly once; non-trivial: N >= 5, distinct by case and executed decision trace",
+                "part sched-pool: TaskPool alone under the controlled scheduler: N=1..12 long-lived tasks (each announces itself, then blocks until all N have started), optional warm-up burst and idle phase (virtual time) before, generated arrival pattern and schedule tape; oracle: all N run at the same time (otherwise: exact deadlock report), each task body exactly once; non-trivial: N >= 5, distinct by case and executed decision trace; part sched-server: the whole Server over the in-memory listener: bursts of 1-9 keep-alive connections each sending 1-2 requests, 1-2 application threads answering, every client waits for its own responses while all the others stay open and closes only after all have theirs; oracle: completes (otherwise exact deadlock report), each connection gets exactly its own responses",
                 sched_assumptions,
             )
         }
@@ -56,6 +61,41 @@ fn main() {
                 "part sched-conn: the real ClientConnection under the controlled scheduler: pipelines of 2-8 requests whose bodies are absent or <= 1024 bytes (1024 forced often), optionally one request with a larger or chunked body at a generated position; application programs: (a) collect every request up to and including the first streamed one before answering any, (b) read the streamed body to its end and - still holding that request unanswered - take its successor, (c) answer the streamed one, successors handled by another task; oracle: every collect succeeds while the client has received nothing (otherwise exact deadlock report), afterwards the whole pipeline is delivered and answered; non-trivial: >= 2 requests held unanswered at once",
                 sched_assumptions,
             )
+        }
+        "C20" => {
+            parts.push(make_part("sched-server", "SCHED", cli.cases(3_000, 200_000), || server::server_strategy(10, true), |_| (), |_, c| server::run_server_case("C20", c)));
+            (
+                "part sched-server: the whole Server over the in-memory listener under virtual time: histories of 1-3 bursts of 1-10 connections (each answered, then closed) separated by idle phases of 5.2 / 6 s virtual time, then the server is dropped either with nothing outstanding or while the application holds a request that it answers afterwards; oracle: live library threads after an idle phase <= accept + 4, the next burst is still served, connect is refused after the drop, the held request's answer reaches the client, the accept thread ends; non-trivial: a burst > 4 or a drop with a request outstanding",
+                sched_assumptions,
+            )
+        }
+        "C10" => {
+            parts.push(make_part("sched-mem", "SCHED", cli.cases(4_000, 200_000), || vcore::gen::c10_strategy(proptest::strategy::Just(vcore::conv::Transport::Mem).boxed()), |_| (), |_, c| convsched::mem_sched_verdict("C10", c, &|c, e, o| vcore::oracles::c10_oracle(c, e, o))));
+            (
+                "part sched-mem: the C10 cases through the sequential in-memory engine, executed under the controlled runtime: a connection thread that blocks on itself (e.g. on a writer turn only it could release) is an exact deadlock report instead of a hang",
+                sched_assumptions,
+            )
+        }
+        "C12" => {
+            parts.push(make_part("sched-mem", "SCHED", cli.cases(3_000, 150_000), || vcore::gen::c12_strategy(proptest::strategy::Just(vcore::conv::Transport::Mem).boxed()), |_| (), |_, c| convsched::mem_sched_verdict("C12", c, &|c, e, o| vcore::oracles::c12_oracle(c, e, o))));
+            ("part sched-mem: the C12 cases through the sequential in-memory engine under the controlled runtime (self-blocking = exact deadlock report)", sched_assumptions)
+        }
+        "C18" => {
+            parts.push(make_part("sched-mem", "SCHED", cli.cases(3_000, 150_000), || vcore::gen::c18_strategy(proptest::strategy::Just(vcore::conv::Transport::Mem).boxed()), |_| (), |_, c| convsched::mem_sched_verdict("C18", c, &|c, e, o| vcore::oracles::c18_oracle(c, e, o))));
+            ("part sched-mem: the C18 cases through the sequential in-memory engine under the controlled runtime (self-blocking = exact deadlock report)", sched_assumptions)
+        }
+        "C06" => {
+            parts.push(make_part("sched-conn", "SCHED", cli.cases(4_000, 200_000), convsched::c01_strategy, |_| (), |_, c| {
+                // the C01 scenarios (drops and unused writers among concurrent handlers) judged by
+                // C06's clause: a dropped request never holds up the responses that follow it
+                let so = convsched::run_sched_conv(c);
+                if let Some(v) = convsched::exec_trouble("C06", "dropped-request-among-concurrent-handlers", &so) {
+                    return v;
+                }
+                let exp = vcore::conv::expect(&c.case);
+                vcore::oracles::c06_oracle(&c.case, &exp, &so.obs)
+            }));
+            ("part sched-conn: pipelines with drops among concurrently answering handler tasks under the controlled scheduler: a held-up follower is an exact deadlock report; one final response per delivered request", sched_assumptions)
         }
         other => {
             eprintln!("vsched: no parts for property {}", other);
